@@ -880,8 +880,10 @@ def _scrub(m, o):
         elif l['k'] == 'rgbc':
             d.update({'fn': l['fn'], 'comp': l['comp'], 'args': [clamp(x) for x in l['args']]})
         tl.append(d)
-    a = {'leaves': tl, 'selfref': selfref, 'badtype': badtype}
+    empty = bool(o.get('empty'))      # the same argument on an EMPTY text: nothing to format, but a bad setting is still an error
+    a = {'leaves': tl, 'selfref': selfref, 'badtype': badtype, 'empty': b(empty)}
     A = lib.AnsiString
+    base = '' if empty else 'x'
 
     poison = o.get('poison_first')
 
@@ -892,10 +894,10 @@ def _scrub(m, o):
             out0, _ = guarded(lambda: A('x', [shared]))
             shared[:] = list(arg)
             return A('x', [shared])
-        return A('x', arg[0]) if single else A('x', *arg)
+        return A(base, arg[0]) if single else A(base, *arg)
 
     def obs(v):
-        rep = A('x', *[lib.AnsiSetting(str(s)) for s in v.ansi_settings_at(0)])
+        rep = A(base, *[lib.AnsiSetting(str(s)) for s in v.ansi_settings_at(0)])
         return {'res': m.texts.tids([str(s) for s in v.ansi_settings_at(0)]), 'q': cps(str(v)), 'rep_q': cps(str(rep)),
                 'valid': b(v.is_formatting_valid()), 'parsable': b(v.is_formatting_parsable())}
     return a, call, 'scalar', {'obs': obs}
